@@ -26,8 +26,14 @@ binding:   (a) CASE lines of the bounded configuration (every string up to lengt
            the positions of ':' and '-', so TLC's verdict and decomposition carry over run-wise;
            a sample of them is re-validated by TLC on the long concrete text in the trace leg),
            stretched symbol maps in the LTS replay, sized strings and values in the recorded traces.
-negative controls run in every check (spec level): DollarAnchor, UnicodeDigits, NoRollback, StaleKey
-must make TLC report AcceptExact / ImplRefines / KeyFresh violated; corrupted literal traces must be
+           Object store with two objects (CopyIndependent): a Copy (Version(v) of the same or another
+           class, copy.copy, copy.deepcopy, pickle round trip) keeps BOTH objects alive; the history
+           continues on either one and the retained one is read back (attributes, str, hash,
+           comparisons with a fresh object of its own text) after every later step, accepted or
+           rejected.  MC_VersionString_pair*.cfg explores every (obj, kept) pair; in the LTS replay
+           assignment edges are preceded by the model's Copy self-loop; traces carry kobs.
+negative controls run in every check (spec level): DollarAnchor, UnicodeDigits, NoRollback, StaleKey,
+CopySharesParts must make TLC report AcceptExact / ImplRefines / KeyFresh / CopyIndependent violated; corrupted literal traces must be
 rejected.
 """
 import json
@@ -39,8 +45,8 @@ from lts import LTS, skey, strip
 
 MANIFEST = dict(
     technique="TLA+ spec over code points (VersionString: reference Valid/Unspec/Decompose + regex/__setattr__ implementation layer) model-checked by TLC; bounded-exhaustive CASE lines and the complete object LTS replayed into Version/NativeVersion/BaseVersion; recorded constructions and assignment sequences validated by TLC (TraceVersionString)",
-    text="TLC enumerates every string up to length 4 (quick) / 5 (thorough) over 12 code points (digit, letter, . + ~ - :, space, LF, '_', non-ASCII letter, non-ASCII digit) and checks that the transcription of re_valid_version accepts exactly the valid strings outside the unspecified zone of D2, decomposes them like the reference and that Recompose(Decompose(s)) = s; it also explores the object LTS (12 start versions + 7 non-versions x 8 assignment values x 3 components + full_version + copy, closed up to a length bound) and checks that the transcription of __setattr__ (assign private, recompute, re-validate, roll back) refines 'recomposed valid version or ValueError with the object unchanged'. Every CASE line is replayed into the three real classes with several class-preserving concretizations (other digits/letters, tab, CR, U+0663, U+FF11, ...), every LTS edge and random walks are replayed with all four attributes compared after each call, and constructions/assignment sequences recorded from the real classes on random text up to 25 characters are validated by TLC on the concrete code points. The object model carries a derived comparison key (invariant KeyFresh: the state is a function of full_version alone); the binding observes it behaviourally after every accepted or rejected assignment (hash/==/< called before the assignment; afterwards v must equal, hash, print and order like a fresh object built from v.full_version, also against two fixed probe versions, and version_compare must give 0), so memoised or cached derived state that an assignment does not invalidate is detected. All three legs are size-stressed: epochs of 1..25 digits around 2**15/2**31/2**32/2**63/10**18 with and without leading zeros, digit and letter runs of boundary lengths up to 257, many hyphens/colons.",
-    note="Small scope: strings <= 5 symbols exhaustively, longer ones sampled (traces); the LTS is closed only up to Len(full_version) <= 7/11 because 'a-b' as revision and '1:2' as epoch grow the version without bound. Unspecified (executed, never judged): D2 zone (over version characters: nothing / a colon after the last hyphen, nothing before it), None as upstream, '' as revision. Trusted: TLC, the projection (four attributes, str()), the class-preserving concretizer (cross-checked by feeding concretized cases to trace validation). Spec-level negative controls (DollarAnchor, UnicodeDigits, NoRollback, StaleKey) and corrupted control traces are run in every check. BaseVersion has no comparison: only attributes, str and hash are compared with the fresh object there.",
+    text="TLC enumerates every string up to length 4 (quick) / 5 (thorough) over 12 code points (digit, letter, . + ~ - :, space, LF, '_', non-ASCII letter, non-ASCII digit) and checks that the transcription of re_valid_version accepts exactly the valid strings outside the unspecified zone of D2, decomposes them like the reference and that Recompose(Decompose(s)) = s; it also explores the object LTS (12 start versions + 7 non-versions x 8 assignment values x 3 components + full_version + copy, closed up to a length bound) and checks that the transcription of __setattr__ (assign private, recompute, re-validate, roll back) refines 'recomposed valid version or ValueError with the object unchanged'. Every CASE line is replayed into the three real classes with several class-preserving concretizations (other digits/letters, tab, CR, U+0663, U+FF11, ...), every LTS edge and random walks are replayed with all four attributes compared after each call, and constructions/assignment sequences recorded from the real classes on random text up to 25 characters are validated by TLC on the concrete code points. The object model carries a derived comparison key (invariant KeyFresh: the state is a function of full_version alone); the binding observes it behaviourally after every accepted or rejected assignment (hash/==/< called before the assignment; afterwards v must equal, hash, print and order like a fresh object built from v.full_version, also against two fixed probe versions, and version_compare must give 0), so memoised or cached derived state that an assignment does not invalidate is detected. The model is an object store with two objects (every reachable pair explored, action property CopyIndependent): after a copy (constructor from an object of the same or another class, copy.copy, copy.deepcopy, pickle) both objects stay alive, the history continues on either, and the other one must read back unchanged after every later accepted or rejected call. All three legs are size-stressed: epochs of 1..25 digits around 2**15/2**31/2**32/2**63/10**18 with and without leading zeros, digit and letter runs of boundary lengths up to 257, many hyphens/colons.",
+    note="Small scope: strings <= 5 symbols exhaustively, longer ones sampled (traces); the LTS is closed only up to Len(full_version) <= 7/11 because 'a-b' as revision and '1:2' as epoch grow the version without bound. Unspecified (executed, never judged): D2 zone (over version characters: nothing / a colon after the last hyphen, nothing before it), None as upstream, '' as revision. Trusted: TLC, the projection (four attributes, str()), the class-preserving concretizer (cross-checked by feeding concretized cases to trace validation). Spec-level negative controls (DollarAnchor, UnicodeDigits, NoRollback, StaleKey, CopySharesParts) and corrupted control traces are run in every check. BaseVersion has no comparison: only attributes, str and hash are compared with the fresh object there.",
     design="5 (C14)")
 
 ABSENT = [-1]
@@ -314,13 +320,39 @@ def outcome(fn):
         return None, "EXC:" + type(e).__name__
 
 
-def do_op(cls, v, op, val, alias=False):
-    """one public call on object v (None = no object yet); returns (object, result string)"""
+COPY_HOW = ("ctor", "ctor", "ctor:Version", "ctor:NativeVersion", "ctor:BaseVersion", "copy", "deepcopy", "pickle")
+copy_unsupported = {}
+
+
+def make_copy(cls, v, how):
+    """a second object from v: Version(v) (same or another of the three classes), copy.copy,
+    copy.deepcopy, pickle round trip.  The copy-module ways count only where they work at all:
+    if one raises, the constructor is used instead (noted in copy_unsupported).
+    Returns (new object or None, result string)"""
+    import copy
+    import pickle
+    if how in ("copy", "deepcopy", "pickle"):
+        try:
+            if how == "copy":
+                return copy.copy(v), "ok"
+            if how == "deepcopy":
+                return copy.deepcopy(v), "ok"
+            return pickle.loads(pickle.dumps(v)), "ok"
+        except Exception as e:
+            copy_unsupported[how] = type(e).__name__
+    if how.startswith("ctor:"):
+        cls = get_class(how[5:])
+    return outcome(lambda: cls(v))
+
+
+def do_op(cls, v, op, val, alias=False, how="ctor"):
+    """one public call on object v (None = no object yet); returns (object, result string);
+    for "copy" the object returned is the NEW one (v itself when copying failed)"""
     if op == "construct":
         nv, res = outcome(lambda: cls(txt(val)))
         return (nv if res == "ok" else None), res
     if op == "copy":
-        nv, res = outcome(lambda: cls(v))
+        nv, res = make_copy(cls, v, how)
         return (nv if res == "ok" else v), res
     attr = ATTR[op]
     if op == "revision" and alias:
@@ -405,13 +437,29 @@ def fmt(o):
 
 # ------------------------------------------------------------------ (b) LTS replay
 
-def run_path(clsname, start, path, sm, aliases, stats=None, deep=True):
+def check_kept(kept, kept_exp, where):
+    """CopyIndependent: the retained object of the last copy still reads back as it was"""
+    if kept is None:
+        return None
+    o, msg, note = observe(kept)
+    if msg:
+        return "%s: the other object of the copy: %s" % (where, msg)
+    if o != kept_exp:
+        return "%s: the OTHER object of the earlier copy changed from %s to %s%s" % (
+            where, fmt(kept_exp), fmt(o), "; " + note if note else "")
+    return None
+
+
+def run_path(clsname, start, path, sm, aliases, stats=None, deep=True, copies=(("ctor", "new"),)):
     """replay a model behaviour; start = model object to construct directly (NOOBJ: none);
     returns None or a message (verdict observables only).  deep=False: the behavioural comparison
     with a fresh object (KeyFresh) is made after the last step only (hash / == / < are still
-    called before every assignment)"""
+    called before every assignment).  copies: (how, "new" | "src") per copy step, cycled: how the
+    second object is made and on which of the two the history continues; the other one is kept
+    alive and must read back unchanged after every later step (CopyIndependent)"""
     cls = get_class(clsname)
     v = None
+    kept, kept_exp, ncopies = None, None, 0
     before = dict(NOOBJ)
     if start["full"] != ABSENT:
         v, res = do_op(cls, None, "construct", sm.cp(start["full"]))
@@ -422,7 +470,9 @@ def run_path(clsname, start, path, sm, aliases, stats=None, deep=True):
         before = o
     for i, e in enumerate(path):
         op, val = e["op"], sm.cp(e["args"][0])
-        where = "step %d %s %s%s" % (i + 1, clsname, "%s = " % ATTR[op] if op in ATTR else op + " ", show(val))
+        last = i == len(path) - 1
+        how, cont = copies[ncopies % len(copies)] if op == "copy" else ("ctor", "new")
+        where = "step %d %s %s%s" % (i + 1, clsname, "%s = " % ATTR[op] if op in ATTR else "%s[%s, continue on %s] " % (op, how, cont) if op == "copy" else op + " ", show(val))
         if e["res"] == "unspec":
             # executed on a scratch object, any outcome accepted
             scratch = None
@@ -435,11 +485,21 @@ def run_path(clsname, start, path, sm, aliases, stats=None, deep=True):
                 stats[res] = stats.get(res, 0) + 1
             continue
         warm(v)                  # hash / == / < before the call: cached keys now exist
-        v, res = do_op(cls, v, op, val, aliases[i % len(aliases)])
+        warm(kept)
+        src = v
+        v, res = do_op(cls, v, op, val, aliases[i % len(aliases)], how)
         if res != e["res"]:
             return "%s: outcome %s, the specification says %s (object before: %s)" % (where, res, e["res"], fmt(before))
-        o, msg, note = observe(v, deep or i == len(path) - 1)
         exp = sm.obj(e["to"])
+        if op == "copy":
+            ncopies += 1
+            new = v
+            if cont == "src":
+                v = src
+            kept, kept_exp = (src if cont == "new" else new), exp
+            if type(v) is not cls:
+                cls = type(v)
+        o, msg, note = observe(v, deep or last)
         if msg:
             return "%s: %s" % (where, msg)
         if o["key"] is None:
@@ -453,6 +513,10 @@ def run_path(clsname, start, path, sm, aliases, stats=None, deep=True):
             return "%s: object is %s, the specification says %s" % (where, fmt(o), fmt(exp))
         if res == "ok" and recomposed(o) != o["full"]:
             return "%s: components of %s recompose to %s" % (where, fmt(o), show(recomposed(o)))
+        if deep or last:
+            m = check_kept(kept, kept_exp, "%s (%s)" % (where, res))
+            if m:
+                return m
         before = o
     return None
 
@@ -582,42 +646,55 @@ def gen_value(rng, comp):
 
 def record_trace(rng, clsname, s=None, nops=None):
     """a construction and a random assignment sequence on the real class; stops when there is no
-    object or after an exception that is not ValueError (the object may be in any condition then)"""
+    object or after an exception that is not ValueError (the object may be in any condition then).
+    A copy keeps BOTH objects alive: the history continues on one of them (rng), the other one is
+    read back after every later event (kobs)"""
     cls = get_class(clsname)
     s = gen_string(rng) if s is None else s
-    events = []
-    v, res = do_op(cls, None, "construct", s)
-    o, msg, note = observe(v)
-    events.append({"op": "construct", "v": s, "res": res, "obs": o, "alias": False, "msg": msg, "note": note})
+    calls = [{"op": "construct", "v": s, "alias": False}]
     n = rng.randint(0, 8) if nops is None else nops
-    while v is not None and res in ("ok", "ValueError") and len(events) <= n:
-        op = rng.choice(["epoch", "upstream", "revision", "epoch", "upstream", "revision", "full", "copy"])
+    for _ in range(n):
+        op = rng.choice(["epoch", "upstream", "revision", "epoch", "upstream", "revision", "full", "copy", "copy"])
         val = ABSENT if op == "copy" else gen_value(rng, op)
         if op == "full" and val == ABSENT:
             val = []
-        alias = rng.random() < 0.5
+        c = {"op": op, "v": val, "alias": rng.random() < 0.5}
+        if op == "copy":
+            c["how"], c["cont"] = rng.choice(COPY_HOW), rng.choice(["new", "src"])
+        calls.append(c)
+    return execute_calls(clsname, calls)
+
+
+def execute_calls(clsname, calls):
+    cls = get_class(clsname)
+    v = kept = None
+    events = []
+    for c in calls:
+        if c["op"] != "construct" and v is None:
+            break
         warm(v)
-        v, res = do_op(cls, v, op, val, alias)
+        warm(kept)
+        src = v
+        v, res = do_op(cls, v, c["op"], c["v"], c.get("alias", False), c.get("how", "ctor"))
+        if c["op"] == "copy" and res == "ok":
+            new = v
+            if c.get("cont", "new") == "src":
+                v = src
+            kept = src if c.get("cont", "new") == "new" else new
         o, msg, note = observe(v)
-        events.append({"op": op, "v": val, "res": res, "obs": o, "alias": alias, "msg": msg, "note": note})
+        ko, kmsg, knote = observe(kept)
+        if kmsg and not msg:
+            msg = "the other object of the copy: " + kmsg
+        ev = dict(c, res=res, obs=o, kobs=ko, msg=msg, note=note or (knote and "other object of the copy: " + knote))
+        events.append(ev)
+        if res not in ("ok", "ValueError"):
+            break
     return {"cls": clsname, "events": events}
 
 
 def re_record(t):
     """re-execute the calls of a recorded trace on the current tree"""
-    cls = get_class(t["cls"])
-    v = None
-    events = []
-    for e in t["events"]:
-        if e["op"] != "construct" and v is None:
-            break
-        warm(v)
-        v, res = do_op(cls, v, e["op"], e["v"], e.get("alias", False))
-        o, msg, note = observe(v)
-        events.append({"op": e["op"], "v": e["v"], "res": res, "obs": o, "alias": e.get("alias", False), "msg": msg, "note": note})
-        if res not in ("ok", "ValueError"):
-            break
-    return {"cls": t["cls"], "events": events}
+    return execute_calls(t["cls"], [{k: e[k] for k in ("op", "v", "alias", "how", "cont") if k in e} for e in t["events"]])
 
 
 def _o(full, ep, up, rev, key=None):
@@ -626,8 +703,9 @@ def _o(full, ep, up, rev, key=None):
             "key": [f(x) for x in (key or (ep, up, rev))]}
 
 
-def _e(op, v, res, obs):
-    return {"op": op, "v": ABSENT if v is None else [ord(c) for c in v], "res": res, "obs": obs}
+def _e(op, v, res, obs, kobs=None):
+    return {"op": op, "v": ABSENT if v is None else [ord(c) for c in v], "res": res, "obs": obs,
+            "kobs": dict(NOOBJ) if kobs is None else kobs}
 
 
 # a literal history the specification must accept ...
@@ -640,6 +718,19 @@ GOOD_TRACE = {"cls": "literal", "events": [
     _e("epoch", "", "ValueError", _o("4-1-3", None, "4-1", "3")),
     _e("full", "1.0\n", "ValueError", _o("4-1-3", None, "4-1", "3")),
     _e("revision", None, "ok", _o("4-1", None, "4", "1")),
+]}
+
+
+# ... and one with a copy: the retained object stays what it was
+_K = ("1:2.0-3", "1", "2.0", "3")
+GOOD_TRACE2 = {"cls": "literal", "events": [
+    _e("construct", "1:2.0-3", "ok", _o(*_K)),
+    _e("copy", None, "ok", _o(*_K), _o(*_K)),
+    _e("epoch", "5", "ok", _o("5:2.0-3", "5", "2.0", "3"), _o(*_K)),
+    _e("revision", "\xe9", "ValueError", _o("5:2.0-3", "5", "2.0", "3"), _o(*_K)),
+    _e("full", "7", "ok", _o("7", None, "7", None), _o(*_K)),
+    _e("copy", None, "ok", _o("7", None, "7", None), _o("7", None, "7", None)),
+    _e("upstream", "8", "ok", _o("8", None, "8", None), _o("7", None, "7", None)),
 ]}
 
 
@@ -663,6 +754,17 @@ def control_traces():
     variant(1, obs=_o("5:2.0-3", "5", "2.0", "3", key=("1", "2.0", "3")))     # stale comparison key after an assignment
     variant(7, obs=_o("4-1", None, "4", "1", key=(None, "4-1", "3")))        # stale key after revision = None
     variant(2, obs=dict(_o("5:2.0-3", "5", "2.0", "3"), key=BADKEY))    # incoherent after a rejected assignment
+
+    def variant2(i, **kw):
+        t = copy.deepcopy(GOOD_TRACE2)
+        t["events"] = t["events"][:i + 1]
+        t["events"][i].update(kw)
+        out.append(t)
+    variant2(2, kobs=_o("5:2.0-3", "5", "2.0", "3"))                    # the copy shares its parts: assignment shows in the other
+    variant2(3, kobs=_o("1:2.0-3", "1", "2.0", "\xe9"))                 # rejected assignment leaks into the other object
+    variant2(4, kobs=_o("7", None, "7", None))                          # full_version assignment shows in the other
+    variant2(1, kobs=dict(NOOBJ))                                       # nothing retained by the copy
+    variant2(6, kobs=dict(_o("7", None, "7", None), key=BADKEY))        # the other object went stale
     out.append({"cls": "literal", "events": [_e("construct", "٣:1", "ok", _o("٣:1", "٣", "1", None))]})
     out.append({"cls": "literal", "events": [_e("construct", "a:1", "ok", _o("a:1", None, "a:1", None))]})
     out.append({"cls": "literal", "events": [_e("construct", "1-1", "ValueError", dict(NOOBJ))]})
@@ -670,17 +772,18 @@ def control_traces():
 
 
 def slim(t):
-    return {"cls": t["cls"], "events": [{k: e[k] for k in ("op", "v", "res", "obs")} for e in t["events"]]}
+    return {"cls": t["cls"], "events": [dict({k: e[k] for k in ("op", "v", "res", "obs")}, kobs=e.get("kobs", NOOBJ))
+                                        for e in t["events"]]}
 
 
 def validate(ctx, traces, with_controls=True):
     """TLC validates the traces; returns (rejected 1-based ids, {id: accepted prefix length})"""
-    batch = [slim(t) for t in traces] + [slim(GOOD_TRACE)]
+    batch = [slim(t) for t in traces] + [slim(GOOD_TRACE2), slim(GOOD_TRACE)]
     controls = control_traces() if with_controls else []
     acc, _, r = core.validate_traces(ctx, "TraceVersionString", "TraceVersionString.cfg", batch,
                                      extra_env={"TRACE_DIAG": "0"}, controls=controls, workers=4)
-    if len(batch) not in acc:
-        raise core.MachineryError("TraceVersionString rejects the literal good trace: trace module broken")
+    if len(batch) not in acc or len(batch) - 1 not in acc:
+        raise core.MachineryError("TraceVersionString rejects a literal good trace: trace module broken")
     rejected = [i for i in range(1, len(traces) + 1) if i not in acc]
     info = {}
     if rejected:
@@ -716,18 +819,21 @@ def spec_negative_controls(ctx):
         ("DollarAnchor", "MC_VersionString_bnd_quick.cfg", dict(DollarAnchor="TRUE", Emit="FALSE", MaxLen=2), "AcceptExact"),
         ("UnicodeDigits", "MC_VersionString_bnd_quick.cfg", dict(UnicodeDigits="TRUE", Emit="FALSE", MaxLen=3), "AcceptExact"),
         ("NoRollback", "MC_VersionString_lts_quick.cfg", dict(NoRollback="TRUE", Emit="FALSE", MaxLen=5), "ImplRefines"),
-        ("DollarAnchor/lts", "MC_VersionString_lts_quick.cfg", dict(DollarAnchor="TRUE", Emit="FALSE", MaxLen=5), "ImplRefines"),
         ("StaleKey", "MC_VersionString_lts_quick.cfg", dict(StaleKey="TRUE", Emit="FALSE", MaxLen=5), "KeyFresh"),
+        ("CopySharesParts", "MC_VersionString_pair_quick.cfg", dict(CopySharesParts="TRUE"), "CopyIndependent"),
     ]
+
+    if ctx.tier == "quick":
+        # two of the five per quick run (rotating with the seed), all of them in the thorough tier
+        jobs = [jobs[(ctx.seed + k) % len(jobs)] for k in (0, 2)]
 
     def one(j):
         name, cfg, sub, want = j
-        r = ctx.tlc("VersionString", cfg_variant(cfg, **sub), count=False, workers=2, want_tags=set())
+        r = ctx.tlc("VersionString", cfg_variant(cfg, **sub), count=False, workers=2, want_tags=set(),
+                    java_opts=["-XX:TieredStopAtLevel=1", "-XX:ParallelGCThreads=2", "-XX:CICompilerCount=1"])
         return name, want, r.violated
-    n0 = len(ctx.tlc_runs)
     with ThreadPoolExecutor(max_workers=len(jobs)) as ex:
         results = list(ex.map(one, jobs))
-    ctx.tlc_runs[n0:] = sorted(ctx.tlc_runs[n0:], key=lambda x: (str(x["violated"]), x["generated"]))
     out = {}
     for name, want, got in results:
         out[name] = got
@@ -748,19 +854,31 @@ def run(ctx):
     ]
     workers = min(8, core.NCPU)
 
-    # 0. spec-level negative controls
-    spec_negative_controls(ctx)
+    # 0. in the background while the replay legs run: spec-level negative controls and the
+    #    two-object store (all (obj, kept) pairs: CopyIndependent, KeptConsistent); joined in step 4
+    bg = ThreadPoolExecutor(max_workers=2)
+    f_pair = bg.submit(ctx.tlc_must_hold, "VersionString",
+                       "MC_VersionString_pair_quick.cfg" if quick else "MC_VersionString_pair.cfg",
+                       workers=2 if quick else 4, want_tags=set())
+    try:
+        _run(ctx, quick, rng, workers, bg, f_pair)
+    finally:
+        bg.shutdown(wait=True)
+    # completion order of concurrent TLC runs varies: keep the evidence stable
+    ctx.tlc_runs.sort(key=lambda x: (x["module"], str(x["violated"]), -x["distinct"], x["generated"]))
 
+
+def _run(ctx, quick, rng, workers, bg, f_pair):
     # 1. bounded configuration: design invariants + CASE lines; object LTS: design invariants + EDGE lines
     with ThreadPoolExecutor(max_workers=2) as ex:
         f_bnd = ex.submit(ctx.tlc_must_hold, "VersionString",
                           "MC_VersionString_bnd_quick.cfg" if quick else "MC_VersionString_bnd.cfg",
-                          workers=workers if not quick else 4, want_tags={"CASE"})
+                          workers=workers if not quick else 3, want_tags={"CASE"})
         f_lts = ex.submit(ctx.tlc_must_hold, "VersionString",
                           "MC_VersionString_lts_quick.cfg" if quick else "MC_VersionString_lts.cfg",
-                          workers=4, want_tags={"EDGE"})
+                          workers=3 if quick else 4, want_tags={"EDGE"})
         r_bnd, r_lts = f_bnd.result(), f_lts.result()
-    ctx.tlc_runs[-2:] = sorted(ctx.tlc_runs[-2:], key=lambda x: -x["distinct"])     # completion order varies
+    f_nc = bg.submit(spec_negative_controls, ctx)        # overlaps the replay legs
     cases = r_bnd.printed.get("CASE", [])
     if len(cases) != r_bnd.distinct or any(not isinstance(c, dict) for c in cases):
         raise core.MachineryError("bounded configuration: %d CASE lines for %d states" % (len(cases), r_bnd.distinct))
@@ -856,11 +974,13 @@ def run(ctx):
     nconc_e = 1 if quick else 2
     n_bad = 0
     n_sized_paths = 0
+    n_pair_paths = 0
+    copy_edge = {e["_f"]: e for e in g.edges if e["op"] == "copy"}
     for idx, e in enumerate(g.edges):
         if n_bad >= 2:
             break
-        # one more, size-stressed concretization (threshold epochs, long runs) for every 4th (quick) / 2nd (thorough) edge
-        extra = 1 if idx % (4 if quick else 2) == 0 and e["res"] != "unspec" else 0
+        # one more, size-stressed concretization (threshold epochs, long runs) for every 6th (quick) / 2nd (thorough) edge
+        extra = 1 if idx % (6 if quick else 2) == 0 and e["res"] != "unspec" else 0
         for k in range(nconc_e + extra):
             sm = SymMap() if k == 0 else SymMap(rng, symbols, sized=(k >= nconc_e))
             n_sized_paths += k >= nconc_e
@@ -870,13 +990,20 @@ def run(ctx):
                 start, path = NOOBJ, paths[e["_f"]] + [e]
             else:
                 start, path = e["from"], [e]
-            msg = run_path(clsname, start, path, sm, aliases, assign_stats, deep=False)
+            # object store: every 4th (quick) / 2nd assignment edge is preceded by the model's Copy self-loop of
+            # its source state; the history continues on the copy or on the source, the other one is
+            # retained and must not change (accepted AND rejected assignments)
+            copies = [[COPY_HOW[(idx // 2 + k) % len(COPY_HOW)], "new" if (idx // 2 + k) % 3 else "src"]]
+            if e["op"] in ATTR and e["res"] != "unspec" and (idx // 3 + k) % (4 if quick else 2) == 0 and e["_f"] in copy_edge:
+                path = path[:-1] + [copy_edge[e["_f"]], e]
+                n_pair_paths += 1
+            msg = run_path(clsname, start, path, sm, aliases, assign_stats, deep=False, copies=copies)
             ctx.case_seen(("edge", e["_f"], e["op"], skey(e["args"])), e["res"] != "unspec")
             n_replayed += 1
             if msg:
                 n_bad += 1
                 ctx.violation({"kind": "path", "cls": clsname, "start": start, "path": [strip(x) for x in path],
-                               "sym": sm.to_json(), "aliases": aliases}, msg)
+                               "sym": sm.to_json(), "aliases": aliases, "copies": copies}, msg)
                 break
     mid = [e for e in g.edges if e["res"] == "ValueError" and e["op"] in ("epoch", "upstream", "revision") and e["args"][0] not in (ABSENT, [])]
     if mid:
@@ -886,29 +1013,37 @@ def run(ctx):
     if okc:
         e = okc[len(okc) // 2]
         ctx.sample("EDGE %s: debian_revision = %s -> %s" % (fmt(e["from"]), show(e["args"][0]), fmt(e["to"])))
-    nwalks, wlen = (400, 25) if quick else (3000, 30)
+    nwalks, wlen = (300, 25) if quick else (3000, 30)
     keys = sorted(g.states)
     for w in range(nwalks):
         if n_bad >= 3:
             break
         start_key = rng.choice(keys)
-        path = g.walk(rng, start_key, wlen, weight=lambda x: 4 if x["res"] == "ok" and x["_f"] != x["_t"] else 1)
+        path = g.walk(rng, start_key, wlen, weight=lambda x: 5 if x["op"] == "copy" else 4 if x["res"] == "ok" and x["_f"] != x["_t"] else 1)
+        copies = [[rng.choice(COPY_HOW), rng.choice(["new", "src"])] for _ in range(4)]
+        n_pair_paths += any(x["op"] == "copy" for x in path)
         sm = SymMap() if w % 4 == 0 else SymMap(rng, symbols, sized=(w % 4 == 1))
         n_sized_paths += w % 4 == 1
         clsname = CLASSES[w % 3]
         aliases = [rng.random() < 0.5 for _ in range(5)]
-        msg = run_path(clsname, g.states[start_key], path, sm, aliases, assign_stats)
+        msg = run_path(clsname, g.states[start_key], path, sm, aliases, assign_stats, copies=copies)
         ctx.case_seen(("walk", w), True)
         n_replayed += 1
         if msg:
             n_bad += 1
             ctx.violation({"kind": "path", "cls": clsname, "start": g.states[start_key],
-                           "path": [strip(x) for x in path], "sym": sm.to_json(), "aliases": aliases}, msg)
+                           "path": [strip(x) for x in path], "sym": sm.to_json(), "aliases": aliases, "copies": copies}, msg)
     ctx.extra["behaviours_replayed"] = n_replayed
     ctx.extra["size_stressed_behaviours"] = n_sized_paths
+    ctx.extra["behaviours_with_two_live_objects"] = n_pair_paths
     ctx.extra["unspecified_zone_outcomes"]["lts"] = dict(assign_stats)
 
-    # 4. (c) code -> spec: recorded constructions and assignment sequences validated by TLC
+    # 4. join the background model-checking runs (MachineryError if a design run or a control failed)
+    f_nc.result()
+    r_pair = f_pair.result()
+    ctx.extra["model"].update({"pair_states": r_pair.distinct, "pair_max_full_len": 4 if quick else 5})
+
+    # 5. (c) code -> spec: recorded constructions and assignment sequences validated by TLC
     ntr = 1500 if quick else 12000
     traces = [record_trace(rng, CLASSES[i % 3]) for i in range(ntr)]
     for i, t in enumerate(cross):
@@ -942,6 +1077,7 @@ def run(ctx):
             evs[k] = evs.get(k, 0) + 1
     ctx.extra["trace_events"] = evs
     ctx.extra["traces_recorded"] = len(traces)
+    ctx.extra["copy_ways_not_supported_by_the_code"] = dict(copy_unsupported)
     ctx.extra["traces_rejected"] = len(rejected)
     ctx.extra["concretized_cases_cross_checked_by_tlc"] = len(cross)
     for i in rejected[:2]:
@@ -953,6 +1089,10 @@ def run(ctx):
             what = "%s %s -> %s, object %s" % (ev["op"], show(ev["v"]), ev["res"], fmt(ev["obs"]))
             if ev.get("note"):
                 what += " which does not behave like a fresh one: " + ev["note"]
+            if ev.get("kobs", NOOBJ) != NOOBJ:
+                what += "; other object of the last copy: %s" % fmt(ev["kobs"])
+                if at and t["events"][at - 1].get("kobs", NOOBJ) not in (NOOBJ, ev["kobs"]) and ev["op"] != "copy":
+                    what += " (was %s)" % fmt(t["events"][at - 1]["kobs"])
             if at:
                 what += " (before: %s)" % fmt(t["events"][at - 1]["obs"])
         ctx.violation({"kind": "trace", "trace": t, "first_unexplained_event": at + 1},
@@ -963,7 +1103,8 @@ def replay(ctx, case):
     if case["kind"] == "case":
         return check_case(case["cls"], case["s"], case["valid"], case["unspec"], case["expected"])
     if case["kind"] == "path":
-        return run_path(case["cls"], case["start"], case["path"], SymMap.from_json(case["sym"]), case["aliases"])
+        return run_path(case["cls"], case["start"], case["path"], SymMap.from_json(case["sym"]), case["aliases"],
+                        copies=case.get("copies") or (("ctor", "new"),))
     if case["kind"] == "trace":
         new = re_record(case["trace"])
         for j, e in enumerate(new["events"]):
